@@ -328,8 +328,9 @@ def gen_plan(ctx, round_index, quick):  # pylint: disable=too-many-locals,too-ma
                          "codes": [(7 * i + rng.randint(0, 5)) % 120 for i in range(n)], "delays": delays,
                          "verbose": rng.random() < 0.5})
 
+    repeat_rng = ctx.rng("repeat", round_index)       # (its own stream: the scenarios below keep theirs)
     for k in (1, 3):
-        n = rng.choice([2, 3, 5])
+        n = repeat_rng.choice([2, 3, 5])
         main.append({"sid": sid("e"), "kind": "execute", "k": k, "n": n, "pattern": "repeat", "repeat": True,
                      "codes": list(range(1, n + 1)), "delays": [0.0] * n, "verbose": False})
 
